@@ -680,7 +680,9 @@ def gen_c16a(rng: random.Random) -> Dict[str, Any]:
         labels["schedule_id"] = rng.choice(["sch-parent", "", "sch-0"])
     return {"mode": "on_ready", "sid": f"sch-{rng.randint(0, 999)}", "task_name": rng.choice(["mod:task", "t", "ü.task"]),
             "args": [gen_json_tree(rng) for _ in range(rng.randint(0, 3))],
-            "kwargs": {f"k{i}": gen_json_tree(rng) for i in range(rng.randint(0, 3))},
+            # (keyword names the sending side also uses for something of its own are ordinary keyword arguments)
+            "kwargs": {(rng.choice(["labels", "task_name", "schedule_id", "task", "args", "kwargs", "source", "self_"]) if rng.random() < 0.12 else f"k{i}"):
+                       gen_json_tree(rng) for i in range(rng.randint(0, 3))},
             # the broker refuses the message (outage): nothing was sent, so the source is not told it was
             "kick_fail": rng.random() < 0.1,
             "labels": labels, "cancel": rng.random() < 0.3, "pre_async": rng.random() < 0.5,
